@@ -31,6 +31,7 @@ type Config struct {
 	MapMode  int  // see simrt.Run.MapMode; -1 = draw from tape
 	KeepLog  bool // retain the full event log
 	Drain    bool // keep scheduling after the root returned, until quiescence
+	ForceMap map[string]int // with MapMode 4: site -> policy
 	RandKey  *uint64 // non-nil: keyed pseudo-random stimulus (see simrt.Run.RandKeyed)
 }
 
@@ -102,6 +103,7 @@ func Run(t *testing.T, tapes *simrt.Tapes, cfg Config, root func(r *simrt.Run)) 
 				only = tapes.Get(simrt.StreamMap).Draw(64)
 			}
 			r.SetMapMode(mapMode, only)
+			r.ForceMap = cfg.ForceMap
 			res.Strategy, res.MapMode = strategy, mapMode
 
 			reg := make(chan *simrt.G)
